@@ -181,6 +181,7 @@ func (impl *serviceImpl) Timeout(ctx gorums.ServerCtx, msg *hotstuffpb.TimeoutMs
 	id, err := impl.srv.config.PeerIDFromContext(ctx)
 	if err != nil {
 		impl.srv.logger.Warnf("Could not get replica ID: %v", err)
+		return
 	}
 	timeoutMsg := hotstuffpb.TimeoutMsgFromProto(msg)
 	timeoutMsg.ID = id
